@@ -278,6 +278,102 @@ func quoteList(xs []string) string {
 var sections []func()
 
 // ---------------------------------------------------------------------------
+// robustness facts (C16): recover() at entry points, checked statement-kind assertions
+// ---------------------------------------------------------------------------
+
+func hasRecoverDefer(body *ast.BlockStmt) bool {
+	if body == nil {
+		return false
+	}
+	for i, st := range body.List {
+		if i > 3 {
+			break
+		}
+		d, ok := st.(*ast.DeferStmt)
+		if !ok {
+			continue
+		}
+		fl, ok := d.Call.Fun.(*ast.FuncLit)
+		if !ok {
+			continue
+		}
+		found := false
+		ast.Inspect(fl.Body, func(n ast.Node) bool {
+			if c, ok := n.(*ast.CallExpr); ok {
+				if id, ok := c.Fun.(*ast.Ident); ok && id.Name == "recover" {
+					found = true
+				}
+			}
+			return true
+		})
+		if found {
+			return true
+		}
+	}
+	return false
+}
+
+func robustnessFacts() {
+	out.WriteString("\n(* ---- robustness facts ---- *)\n")
+	var sites []string
+	for _, rel := range []string{"sql/sql.go", "planner/planner.go", "insert.go", "table.go", "cluster_follow.go", "row_store.go"} {
+		f := parse(rel)
+		pkg := f.Name.Name
+		for _, d := range f.Decls {
+			fd, ok := d.(*ast.FuncDecl)
+			if !ok || !hasRecoverDefer(fd.Body) {
+				continue
+			}
+			name := pkg + "."
+			if fd.Recv != nil && len(fd.Recv.List) == 1 {
+				t := fd.Recv.List[0].Type
+				if st, ok := t.(*ast.StarExpr); ok {
+					t = st.X
+				}
+				if id, ok := t.(*ast.Ident); ok {
+					name += id.Name + "."
+				}
+			}
+			sites = append(sites, name+fd.Name.Name)
+		}
+	}
+	sort.Strings(sites)
+	fmt.Fprintf(&out, "Definition gen_recover_sites : list string := [%s].\n", quoteList(sites))
+
+	// unchecked x.(*sqlparser.Select) in sql.Parse / sql.TableFor
+	unchecked := 0
+	f := parse("sql/sql.go")
+	for _, d := range f.Decls {
+		fd, ok := d.(*ast.FuncDecl)
+		if !ok || (fd.Name.Name != "Parse" && fd.Name.Name != "TableFor") || fd.Recv != nil {
+			continue
+		}
+		checked := map[ast.Node]bool{}
+		ast.Inspect(fd.Body, func(n ast.Node) bool {
+			if as, ok := n.(*ast.AssignStmt); ok && len(as.Lhs) == 2 && len(as.Rhs) == 1 {
+				if ta, ok := as.Rhs[0].(*ast.TypeAssertExpr); ok {
+					checked[ta] = true
+				}
+			}
+			return true
+		})
+		ast.Inspect(fd.Body, func(n ast.Node) bool {
+			if ta, ok := n.(*ast.TypeAssertExpr); ok && !checked[ta] && ta.Type != nil {
+				if selectorPath(ta.Type) == "?" {
+					if st, ok := ta.Type.(*ast.StarExpr); ok && selectorPath(st.X) == "sqlparser.Select" {
+						unchecked++
+					}
+				}
+			}
+			return true
+		})
+	}
+	fmt.Fprintf(&out, "Definition gen_unchecked_select_assertions : Z := %d.\n", unchecked)
+}
+
+func init() { sections = append(sections, robustnessFacts) }
+
+// ---------------------------------------------------------------------------
 // guard tables (C19): which RPC handlers / web routes authenticate before touching data
 // ---------------------------------------------------------------------------
 
